@@ -10,6 +10,7 @@ import Lockable.Props.C01
 import Lockable.Proofs.Commute
 import Lockable.Proofs.SpecTrace
 import Lockable.Proofs.SpecTrace3
+import Lockable.Proofs.Own
 namespace Lockable
 
 /-- No lost wake-up, state form: in every reachable state a free per-key mutex has no sleeping waiter —
@@ -273,5 +274,39 @@ theorem C03_spec_never_stuck (kind : Kind) (as : List Act) (k : Nat)
     (∃ h, sp.held k = some h ∧ (applyEv sp (.release h k)).isSome) ∨
     (∃ h, (sp.waiting k).head? = some h ∧ (applyEv sp (.grant h k)).isSome) :=
   spec_never_stuck _ k hw
+
+/-- **A wake-up cannot be lost or stolen** (every interleaving): once the mutex of its key has been handed to a pending acquisition
+`w` (`hold`: the tokio mutex names `w` as its owner), no action performed for another handle — a lookup, a scan of the whole map,
+an eviction, a failing `try_lock`, another waiter's cancellation, any guard method, a release on any key — changes `w`'s record or
+takes the ownership away again: it stays `w`'s until `w` itself is polled or dropped. `a.actor ≠ some w ∧ w ∉ a.fresh` says
+precisely "the action is not `w`'s own and does not (re)create `w`". -/
+theorem C03_grant_stable (kind : Kind) (as : List Act) (a : Act) (w : Nat) (wd : Handle) :
+    let s := run (State.init kind) as
+    s.hs w = some wd → hold s w wd.key = true → a.actor ≠ some w → w ∉ a.fresh →
+    (step s a).1.hs w = some wd ∧ hold (step s a).1 w wd.key = true := by
+  intro s hw hh ha hf
+  refine ⟨by rw [hs_step_other s a w ha hf, hw], ?_⟩
+  rw [hold_step_other s a w wd (inv_reachable kind as) hw ha hf, hh, Bool.true_or]
+
+/-- **Ownership arrives by hand-off only**: if the mutex of `w`'s key is `w`'s after somebody else's action and was not before, that
+action was the release of the key's guard (or the clean-up of a cancelled owner-to-be) that completed normally, and `w` was the oldest
+waiter of that key. Together with `C03_handoff` (the release *does* hand over) and `C03_grant_stable` this is "a waiter acquires the
+key once the guard it waits for has been dropped" for every schedule of the other parties. -/
+theorem C03_only_handoff_grants (kind : Kind) (as : List Act) (a : Act) (w : Nat) (wd : Handle) :
+    let s := run (State.init kind) as
+    s.hs w = some wd → a.actor ≠ some w → w ∉ a.fresh →
+    hold s w wd.key = false → hold (step s a).1 w wd.key = true → handedTo s a = some w := by
+  intro s hw ha hf h0 h1
+  rw [hold_step_other s a w wd (inv_reachable kind as) hw ha hf, h0, Bool.false_or] at h1
+  simpa using h1
+
+/-- non-vacuity: 2 waits behind 1 for key 7; 1's release hands the mutex to 2; then a third party's lookup, failed try and clean-up
+on the same key, and a scan of the whole map, leave it with 2 -/
+example :
+    let s := run (State.init .hashMap) [.lookup 1 7, .gop 1 (.insert 5), .lookup 2 7, .enqueue 2, .stamp 1]
+    hold s 2 7 = false ∧ handedTo s (.release 1) = some 2 ∧
+    hold (run s [.release 1]) 2 7 = true ∧
+    hold (run s [.release 1, .lookup 3 7, .tryKey 3, .cleanupFailed 3, .snapshot [10, 11]]) 2 7 = true := by
+  decide
 
 end Lockable
